@@ -6,7 +6,11 @@ ROOT = '/verif'; H = ROOT + '/harness'
 BIN = '/root/.rustup/toolchains/nightly-x86_64-unknown-linux-gnu/lib/rustlib/x86_64-unknown-linux-gnu/bin'
 def main():
     prop = sys.argv[1]; scale = sys.argv[2] if len(sys.argv) > 2 else '0.2'
-    env = dict(os.environ, CARGO_NET_OFFLINE='true', RUSTFLAGS='-Cinstrument-coverage', CARGO_TARGET_DIR=H + '/target-cov')
+    os.makedirs(ROOT + '/work', exist_ok=True)
+    # build scripts are instrumented too and would drop default_*.profraw files into the crate
+    # directories under /repo: send those to a scratch file instead
+    env = dict(os.environ, CARGO_NET_OFFLINE='true', RUSTFLAGS='-Cinstrument-coverage', CARGO_TARGET_DIR=H + '/target-cov',
+               LLVM_PROFILE_FILE=ROOT + '/work/cov-build-%p.profraw')
     b = subprocess.run(['cargo', '+nightly', 'build', '--release', '--offline', '--quiet'], cwd=H, env=env, stdout=subprocess.PIPE, stderr=subprocess.STDOUT, text=True)
     if b.returncode != 0:
         print(json.dumps({'error': 'coverage build failed', 'detail': b.stdout[-400:]})); return
@@ -35,5 +39,7 @@ def main():
             if len(parts) == 3 and parts[1].strip() == '0':
                 print(parts[0].strip(), parts[2][:110], file=sys.stderr)
     shutil.rmtree(prof, ignore_errors=True)
+    for f in glob.glob(ROOT + '/work/cov-build-*.profraw'):
+        os.remove(f)
     print(json.dumps(out, indent=1))
 main()
